@@ -159,11 +159,140 @@ def search(ctx):
         for c in leaves[:6]:
             out.append("{%s %s}" % (s, c))
         out.append("{[2 %s]}" % s)
-    return ["C19.check\tsb\t" + t for t in out]
+    reqs = ["C19.check\tsb\t" + t for t in out]
+    # every kind of use site with a small differing structure, alone and after an agreeing one
+    G = ["sb", "rwsb", "sbc", "sbtd", "sbreg"]
+    F = ["bload", "bload2", "rwbload", "rwbload2", "rwbstore", "rwbstoret", "baload", "rwbaload", "rwbastore", "rwbastoret"]
+    W = ["m", "u", "t", "me", "p", "a"]
+    sites = G + [f + "." + w for f in F for w in W]
+    for tgt in ("vk:np:0", "msl:pipe:0", "dx:np:0"):
+        for s in sites:
+            for t in ("{f f2}", "{h h2 f}", "{{f2 f} f}"):
+                reqs.append("C19.prog\t%s\t%s\t%s@0" % (tgt, t, s))
+            reqs.append("C19.prog\t%s\t{f f};{f f2}\tsb@0,%s@1" % (tgt, s))
+            reqs.append("C19.prog\t%s\t{f f};{f f2}\tbload.m@0,%s@1" % (tgt, s))
+    for t in ("{b b}", "{f f2x2}", "{f3x3}", "{i2x2}", "{f @Texture2D}", "{h b2}"):
+        reqs.append("C19.prog\tvk:np:0\t%s\tsb@0" % t)
+    return reqs
+
+
+# ---------------------------------------------------------------- Lean Spec vs the Rust reference calculators
+SC = {"h": "Float16", "i": "Int32", "u": "UInt32", "f": "Float32", "d": "Float64", "b": "Bool"}
+
+
+def lean_xty(t):
+    """parse tree -> term of Spec.LayoutFull.XTy (None: outside XTy)"""
+    if t[0] == "s":
+        ms = [lean_xty(m) for m in t[1]]
+        if None in ms:
+            return None
+        return "(XS [" + ", ".join(ms) + "])"
+    if t[0] == "a":
+        e = lean_xty(t[2])
+        return None if e is None else "(.arr %s %d)" % (e, t[1])
+    w = t[1]
+    if w == "ei":
+        return "(.enum .Int32)"
+    if w == "eu":
+        return "(.enum .UInt32)"
+    if w[0] not in SC:
+        return None
+    if len(w) == 1:
+        return "(.scalar .%s)" % SC[w]
+    if len(w) == 2 and w[1].isdigit():
+        return "(.vec .%s %s)" % (SC[w[0]], w[1])
+    if len(w) in (4, 5) and w[2] == "x":
+        major = {"": ".none", "r": ".row", "c": ".column"}[w[4:]]
+        return "(.mat .%s %s %s %s)" % (SC[w[0]], w[1], w[3], major)
+    return None
+
+
+def ref_types():
+    leaves = []
+    for c in "hiufdb":
+        leaves.append(c)
+        for n in "1234":
+            leaves.append(c + n)
+    for c in "hfidb":
+        for r in "1234":
+            for k in "1234":
+                leaves.append(c + r + "x" + k + ("" if (int(r) + int(k)) % 3 else "r"))
+    leaves += ["ei", "eu", "{}"]
+    out = []
+    for x in leaves:
+        out += ["{%s}" % x, "{%s f}" % x, "{h %s}" % x, "{[3 %s] i}" % x, "{f {%s} d}" % x, "{[2 [2 %s]] h2}" % x]
+    small = ["h", "f", "d", "b", "h2", "h3", "f2", "f3", "f4", "d2", "b2", "b3", "f2x2", "h3x3", "f4x3", "ei", "{}"]
+    for a in small:
+        for b in small:
+            out.append("{%s %s}" % (a, b))
+            out.append("{{%s %s} %s}" % (a, b, a))
+            out.append("{[2 {%s %s}] {%s} %s}" % (b, a, a, b))
+    return out
+
+
+def cross_check_reference(ctx):
+    """the theorems speak about Spec/LayoutFull.lean, the oracle about the calculators in harness/src/c19.rs:
+    both are readings of the same two rule sets and must give the same numbers"""
+    import os
+    import sys
+    sys.path.insert(0, os.path.join(os.path.dirname(os.path.dirname(os.path.abspath(__file__))), "tools"))
+    import vlib as V
+    if not ctx.harness_ok:
+        return
+    tys = ref_types()
+    os.makedirs(os.path.join(V.BUILD, "tmp"), exist_ok=True)
+    reqf = os.path.join(V.BUILD, "tmp", "c19-ref-%d.txt" % os.getpid())
+    with open(reqf, "w") as f:
+        f.write("".join("C19.ref\t%s\n" % t for t in tys))
+    cases, _ = ctx.run_harness([ctx.spec["harness"], "--requests", reqf])
+    os.unlink(reqf)
+    rust = {req.split("\t")[1]: obs for req, obs, _ in cases if req.startswith("C19.ref\t")}
+    lines = ["import RsslVerif.Spec.LayoutFull", "open RsslVerif.Gen.LayoutTables RsslVerif.Spec.LayoutFull",
+             "def XS (l : List XTy) : XTy := .struct (XTys.ofList l)",
+             "def one (m : Mode) (t : XTy) : String :=",
+             "  toString (xsize m t) ++ \"/\" ++ toString (xalign m t) ++ \"/\" ++ \",\".intercalate ((xfieldsAt m t 0).map toString)",
+             "def both (t : XTy) : String := (if xwf t then \"wf \" else \"nwf \") ++ \"h=\" ++ one .hlsl t ++ \" m=\" ++ one .metal t"]
+    asked = []
+    for t in tys:
+        term = lean_xty(parse(tokens(t))[0])
+        if term is not None:
+            asked.append(t)
+            lines.append("#eval IO.println (both %s)" % term)
+    leanf = os.path.join(V.BUILD, "tmp", "c19-ref-%d.lean" % os.getpid())
+    with open(leanf, "w") as f:
+        f.write("\n".join(lines) + "\n")
+    rc, out = V.sh(["lake", "env", "lean", leanf], cwd=V.LEAN, timeout=600)
+    os.unlink(leanf)
+    got = [l for l in out.splitlines() if l.startswith("wf ") or l.startswith("nwf ")]
+    bad = []
+    if rc != 0 or len(got) != len(asked):
+        bad.append("Spec/LayoutFull.lean could not be evaluated (%d answers for %d types): %s" % (len(got), len(asked), out[-200:]))
+    else:
+        for t, l in zip(asked, got):
+            flag, val = l.split(" ", 1)
+            r = rust.get(t)
+            if r is None:
+                bad.append("no answer of the harness for " + t)
+            elif "none" in r:
+                if flag == "wf":
+                    bad.append("%s: Lean Spec has a layout (%s), the Rust reference has none (%s)" % (t, val, r))
+            elif r != val:
+                bad.append("%s: Lean Spec %s, Rust reference %s" % (t, val, r))
+            elif flag == "nwf" and "{}" not in t:
+                bad.append("%s: Rust reference has a layout, xwf is false" % t)
+    ctx.extra["reference_cross_check"] = {"types": len(asked), "disagreements": len(bad)}
+    for b in bad[:5]:
+        ctx.broken.append("reference calculators disagree (Spec/LayoutFull.lean vs harness/src/c19.rs): " + b)
+
+
+def custom(ctx):
+    ctx.standard_run()
+    cross_check_reference(ctx)
 
 
 SPEC = {
     "id": "C19",
+    "custom": custom,
     "gens": ["LayoutTables", "LayoutSites"],
     "lean_modules": ["RsslVerif.Thm.C19"],
     "theorems": [T + n for n in [
